@@ -1064,12 +1064,15 @@ func c3RunParse(p *parser2.Parser[string], ids parser2.Identifiers[string], text
 
 // ---- generators -------------------------------------------------------------------------------
 
-var c3Chars = []string{"+", "-", "*", "/", "<", ">", "=", "!", "&", "|", "^", "%", "~", "?", "@", "#", "$"}
+// (the multi-byte ones: an operator spelling is a sequence of RUNES, the detector must not count bytes; not • × ÷, which the
+// tokenizer itself rewrites to * and /)
+var c3Chars = []string{"+", "-", "*", "/", "<", ">", "=", "!", "&", "|", "^", "%", "~", "?", "@", "#", "$", "≤", "≠", "≈", "∧", "⊕"}
 
 // spellings that are prefixes of one another
 var c3Chains = []string{"<", "<=", "<=>", "<<", "<<=", "<>", "=", "==", "===", "=>", "!=", "!", "!!", "!==", "&", "&&", "&&&",
 	"-", "--", "-=", "->>", "-->", "|", "||", "|>", "||>", "+", "++", "+=", "+-", ">", ">=", ">>", ">>>", ">>=", "*", "**", "*=",
-	"/", "//", "/=", "%", "%%", "^", "^^", "~", "~=", "~~", "?", "??", "@", "@@", "#", "$", "$$"}
+	"/", "//", "/=", "%", "%%", "^", "^^", "~", "~=", "~~", "?", "??", "@", "@@", "#", "$", "$$",
+	"≤", "≤≤", "≤=", "<≈", "≠", "≠=", "⊕", "⊕⊕", "≈", "≈≈", "≈≠", "∧", "∧∧", "=≠"}
 
 var c3AliasWords = []string{"plus", "minus", "and", "or", "mod", "xor", "times", "over", "not", "shl"}
 
@@ -1081,13 +1084,13 @@ func c3GenSpelling(rng *rand.Rand, chosen []string) string {
 			s = c3Chains[rng.Intn(len(c3Chains))]
 		case r < 65 && len(chosen) > 0:
 			s = chosen[rng.Intn(len(chosen))]
-			if len(s) < 3 {
+			if len([]rune(s)) < 3 {
 				s += c3Chars[rng.Intn(len(c3Chars))]
 			}
 		case r < 75 && len(chosen) > 0:
 			s = chosen[rng.Intn(len(chosen))]
-			if len(s) > 1 {
-				s = s[:len(s)-1]
+			if rs := []rune(s); len(rs) > 1 {
+				s = string(rs[:len(rs)-1])
 			}
 		default:
 			n := 1 + rng.Intn(3)
